@@ -98,3 +98,621 @@ Proof.
   intros prot ign off fs recorded inst P d [Hf [Hp Hi]] Hd.
   rewrite unmerge_get; auto. eapply uninstall_set_spares; eauto.
 Qed.
+
+(* ---------------------------------------------------------------- basename of the new name *)
+Definition nosl (c : N) : bool := negb (is_sl c).
+
+Lemma take_while_app_all f a b : forallb f a = true -> take_while f (a ++ b) = a ++ take_while f b.
+Proof.
+  induction a as [|c a IH]; simpl; auto. intro H. apply andb_prop in H. destruct H as [H1 H2].
+  rewrite H1. f_equal. auto.
+Qed.
+Lemma take_while_forallb f s : forallb f (take_while f s) = true.
+Proof. induction s as [|c s IH]; simpl; auto. destruct (f c) eqn:E; simpl; auto. rewrite E. auto. Qed.
+Lemma forallb_rev f (s : str) : forallb f (rev s) = forallb f s.
+Proof.
+  induction s as [|c s IH]; simpl; auto. rewrite forallb_app, IH. simpl. rewrite andb_true_r. apply andb_comm.
+Qed.
+Lemma basename_nosl p : forallb nosl (basename p) = true.
+Proof. unfold basename. rewrite forallb_rev. apply take_while_forallb. Qed.
+
+(* x is empty or ends with a slash *)
+Definition dir_prefix (x : str) : Prop := x = [] \/ exists y, x = y ++ [SL].
+Lemma basename_app x n : dir_prefix x -> forallb nosl n = true -> basename (x ++ n) = n.
+Proof.
+  intros Hx Hn. unfold basename. rewrite rev_app_distr.
+  rewrite take_while_app_all by (rewrite forallb_rev; exact Hn).
+  destruct Hx as [->|[y ->]].
+  - simpl. rewrite ?app_nil_r. apply rev_involutive.
+  - replace (rev (y ++ [SL])) with (SL :: rev y) by (rewrite rev_app_distr; reflexivity).
+    simpl. rewrite ?app_nil_r. apply rev_involutive.
+Qed.
+Lemma ends_sl_spec a : ends_sl a = true -> exists y, a = y ++ [SL].
+Proof.
+  unfold ends_sl. destruct (rev a) as [|c r] eqn:E; [discriminate|]. intro H.
+  unfold is_sl in H. apply N.eqb_eq in H. subst c.
+  exists (rev r). rewrite <- (rev_involutive a), E. reflexivity.
+Qed.
+Lemma pjoin_shape d n : n <> [] -> forallb nosl n = true -> exists x, dir_prefix x /\ pjoin d n = x ++ n.
+Proof.
+  intros Hne Hn. destruct n as [|c n]; [congruence|]. simpl in Hn. apply andb_prop in Hn. destruct Hn as [Hc _].
+  unfold nosl in Hc. apply negb_true_iff in Hc. unfold pjoin. rewrite Hc.
+  destruct d as [|a d].
+  - exists []. split; [left; auto|reflexivity].
+  - destruct (ends_sl (a :: d)) eqn:E.
+    + exists (a :: d). split; [right; apply ends_sl_spec; auto|reflexivity].
+    + exists ((a :: d) ++ [SL]). split; [right; eexists; reflexivity|]. rewrite <- app_assoc. reflexivity.
+Qed.
+Lemma basename_pjoin d n : n <> [] -> forallb nosl n = true -> basename (pjoin d n) = n.
+Proof. intros H1 H2. destruct (pjoin_shape d n H1 H2) as [x [Hx ->]]. apply basename_app; auto. Qed.
+
+Lemma digit_of_nosl z : nosl (digit_of z) = true.
+Proof.
+  unfold nosl, is_sl, digit_of. apply negb_true_iff. apply N.eqb_neq.
+  pose proof (Z.mod_pos_bound z 10 ltac:(lia)). lia.
+Qed.
+Lemma digits_nosl fuel w z : forallb nosl (digits fuel w z) = true.
+Proof.
+  revert w z. induction fuel as [|f IH]; intros w z; [reflexivity|].
+  assert (H : forall w', forallb nosl (digits f w' (z / 10) ++ [digit_of z]) = true).
+  { intro w'. rewrite forallb_app, IH. cbn [forallb]. rewrite digit_of_nosl. reflexivity. }
+  cbn [digits]. destruct w.
+  - destruct (z =? 0)%Z; [reflexivity|apply H].
+  - apply H.
+Qed.
+Lemma fmt04_nosl z : forallb nosl (fmt04 z) = true.
+Proof.
+  unfold fmt04. destruct (z <? 0)%Z.
+  - cbn [forallb]. rewrite digits_nosl. reflexivity.
+  - apply digits_nosl.
+Qed.
+Lemma cfg_name_nosl c f : forallb nosl f = true -> forallb nosl (cfg_name c f) = true.
+Proof.
+  intro H. unfold cfg_name. rewrite forallb_app, forallb_app, fmt04_nosl. cbn [forallb]. rewrite H. reflexivity.
+Qed.
+Lemma new_loc_basename fs loc n :
+  basename (new_loc fs loc n) = cfg_name (cfg_count fs loc n) (basename loc).
+Proof.
+  unfold new_loc. apply basename_pjoin.
+  - unfold cfg_name, cfgp. discriminate.
+  - apply cfg_name_nosl, basename_nosl.
+Qed.
+Lemma new_loc_is_cfg fs loc n : starts_with cfgp (basename (new_loc fs loc n)) = true.
+Proof. rewrite new_loc_basename. reflexivity. Qed.
+
+(* ---------------------------------------------------------------- the rename fold *)
+Definition rn := ((str * node) * (str * node))%type.
+Definition r_new (r : rn) : str := fst (fst r).
+Definition r_old (r : rn) : str := fst (snd r).
+
+Lemma apply_rename_other cs r k : r_new r <> k -> r_old r <> k ->
+  pm_get k (apply_rename cs r) = pm_get k cs.
+Proof.
+  intros H1 H2. unfold apply_rename. rewrite pm_get_set_other by (intro; subst; apply H1; reflexivity).
+  apply pm_get_del_other. intro; subst; apply H2; reflexivity.
+Qed.
+Lemma fold_rename_other R cs k : (forall r, In r R -> r_new r <> k /\ r_old r <> k) ->
+  pm_get k (fold_left apply_rename R cs) = pm_get k cs.
+Proof.
+  revert cs. induction R as [|r R IH]; simpl; intros cs H; auto.
+  rewrite IH by (intros; apply H; auto). apply apply_rename_other; apply H; auto.
+Qed.
+(* the old location of a processed rename is gone, provided no new name equals it *)
+Lemma fold_rename_none R cs P : (forall r, In r R -> r_new r <> P) ->
+  (pm_get P cs = None \/ exists r, In r R /\ r_old r = P) ->
+  pm_get P (fold_left apply_rename R cs) = None.
+Proof.
+  revert cs. induction R as [|r R IH]; simpl; intros cs Hn H.
+  - destruct H as [H|[r [[] _]]]. exact H.
+  - apply IH; [intros; apply Hn; auto|].
+    destruct H as [H|[r0 [[->|Hin] Ho]]].
+    + left. unfold apply_rename. rewrite pm_get_set_other by (intro E; apply (Hn r); auto).
+      destruct (list_eq_dec N.eq_dec P (r_old r)) as [->|Hd].
+      * apply pm_get_del_same.
+      * rewrite pm_get_del_other; auto.
+    + left. unfold apply_rename. rewrite pm_get_set_other by (intro E; apply (Hn r0); auto).
+      unfold r_old in Ho. rewrite Ho. apply pm_get_del_same.
+    + right. exists r0. auto.
+Qed.
+(* the new entry of a rename is in the set afterwards *)
+Lemma fold_rename_some R cs r0 :
+  In r0 R -> NoDup (map r_new R) -> (forall r, In r R -> r_old r <> r_new r0) ->
+  pm_get (r_new r0) (fold_left apply_rename R cs) = Some (snd (fst r0)).
+Proof.
+  revert cs. induction R as [|r R IH]; simpl; intros cs Hin Hnd Ho; [contradiction|].
+  inversion Hnd as [|? ? Hni Hnd']; subst.
+  destruct Hin as [->|Hin].
+  - rewrite fold_rename_other.
+    + unfold apply_rename, r_new. apply pm_get_set_same.
+    + intros r Hr. split; [|apply Ho; auto].
+      intro E. apply Hni. rewrite <- E. apply in_map. exact Hr.
+  - apply IH; auto.
+Qed.
+
+Lemma renames_in prot ign off fs inst r :
+  In r (renames prot ign off fs inst) ->
+  In (snd r) inst /\ is_protected prot ign off fs (snd r) = true /\
+  fst r = (new_loc fs (fst (snd r)) (snd (snd r)), snd (snd r)).
+Proof.
+  unfold renames. intro H. apply in_map_iff in H. destruct H as [e [<- He]].
+  apply filter_In in He. simpl. tauto.
+Qed.
+Lemma renames_intro prot ign off fs inst e :
+  In e inst -> is_protected prot ign off fs e = true ->
+  In ((new_loc fs (fst e) (snd e), snd e), e) (renames prot ign off fs inst).
+Proof.
+  intros H1 H2. unfold renames. apply in_map_iff. exists e. split; auto. apply filter_In. auto.
+Qed.
+Lemma cfg_free_neq_new fs a loc n : starts_with cfgp (basename a) = false -> new_loc fs loc n <> a.
+Proof. intros H E. subst a. rewrite new_loc_is_cfg in H. discriminate. Qed.
+
+Lemma protected_is_protected prot ign off fs inst P d n :
+  protected_file prot ign off fs P d -> incoming_differs inst P d n ->
+  is_protected prot ign off fs (P, n) = true.
+Proof.
+  intros [Hf [Hp Hi]] [_ Hd]. unfold is_protected. simpl. rewrite Hf, Hp, Hi, Hd. reflexivity.
+Qed.
+
+(* ---------------------------------------------------------------- never_overwritten *)
+Theorem never_overwritten_proof :
+  forall (prot ign : str -> bool) (off : str) (fs inst : pmap) (P d : str) (n : node),
+    pkg_ok inst ->
+    protected_file prot ign off fs P d ->
+    incoming_differs inst P d n ->
+    ~ In P (map fst (pre_merge prot ign off fs inst)) /\
+    pm_get P (merge_fs fs (pre_merge prot ign off fs inst)) = Some (File d).
+Proof.
+  intros prot ign off fs inst P d n [Hnd Hfree] Hprot Hinc.
+  assert (Hnone : pm_get P (pre_merge prot ign off fs inst) = None).
+  { unfold pre_merge. apply fold_rename_none.
+    - intros r Hr. apply renames_in in Hr. destruct Hr as [_ [_ Hr]]. unfold r_new. rewrite Hr. simpl.
+      apply cfg_free_neq_new. destruct Hinc as [Hin _]. apply (Hfree _ Hin).
+    - right. exists ((new_loc fs P n, n), (P, n)). split; [|reflexivity].
+      apply (renames_intro prot ign off fs inst (P, n)). apply Hinc.
+      eapply protected_is_protected; eauto. }
+  apply pm_get_none_notin in Hnone. split; auto.
+  rewrite merge_get by exact Hnone. apply Hprot.
+Qed.
+
+(* ---------------------------------------------------------------- numbering *)
+Lemma pick_count_rule fs d n ups acc :
+  let c := pick_count fs d n ups acc in
+  (exists x, In (c, x) ups /\ same_content (live_at fs (pjoin d x)) n = true)
+  \/ ((acc <= c)%Z /\ forall c' x, In (c', x) ups ->
+                               same_content (live_at fs (pjoin d x)) n = false /\ (c' < c)%Z).
+Proof.
+  revert acc. induction ups as [|[c0 x0] ups IH]; intros acc; simpl.
+  - right. split; [lia|]. intros ? ? [].
+  - destruct (same_content (live_at fs (pjoin d x0)) n) eqn:E.
+    + left. exists x0. auto.
+    + destruct (IH (Z.max acc (c0 + 1))) as [[x [Hin Hs]]|[Hle Hall]].
+      * left. exists x. auto.
+      * right. split; [lia|]. intros c' x [Heq|Hin].
+        -- inversion Heq; subst. split; [exact E|lia].
+        -- apply Hall. exact Hin.
+Qed.
+Lemma pending_in fs d fname c x :
+  In (c, x) (pending fs d fname) <-> In x (cfg_listing fs d) /\ parse_cfg x = Some (c, fname).
+Proof.
+  unfold pending. rewrite in_flat_map. split.
+  - intros [y [Hy H]]. destruct (parse_cfg y) as [[c1 fn]|] eqn:E; [|contradiction].
+    destruct (str_eqb fn fname) eqn:E2; [|contradiction].
+    destruct H as [H|[]]. inversion H; subst. apply str_eqb_eq in E2. subst. auto.
+  - intros [H1 H2]. exists x. split; auto. rewrite H2, str_eqb_refl. left. reflexivity.
+Qed.
+Lemma cfg_count_rule fs P n : numbering_rule fs (dirname P) (basename P) n (cfg_count fs P n).
+Proof.
+  unfold cfg_count, numbering_rule.
+  destruct (pick_count_rule fs (dirname P) n (pending fs (dirname P) (basename P)) 0) as [[x [Hin Hs]]|[Hle Hall]].
+  - left. apply pending_in in Hin. exists x, (live_at fs (pjoin (dirname P) x)).
+    unfold pending_update. tauto.
+  - right. split; [exact Hle|]. intros c' x content [H1 [H2 ->]].
+    apply Hall. apply pending_in. auto.
+Qed.
+
+Definition newlocs_distinct (prot ign : str -> bool) (off : str) (fs inst : pmap) : Prop :=
+  NoDup (map r_new (renames prot ign off fs inst)).
+
+Theorem written_beside_proof :
+  forall (prot ign : str -> bool) (off : str) (fs inst : pmap) (P d : str) (n : node),
+    pkg_ok inst ->
+    protected_file prot ign off fs P d ->
+    incoming_differs inst P d n ->
+    let c := cfg_count fs P n in
+    let dest := pjoin (dirname P) (cfg_name c (basename P)) in
+    numbering_rule fs (dirname P) (basename P) n c /\
+    In ((dest, n), (P, n)) (renames prot ign off fs inst) /\
+    (newlocs_distinct prot ign off fs inst -> pm_get dest (pre_merge prot ign off fs inst) = Some n).
+Proof.
+  intros prot ign off fs inst P d n [Hnd Hfree] Hprot Hinc. simpl.
+  split; [apply cfg_count_rule|].
+  assert (Hr : In ((new_loc fs P n, n), (P, n)) (renames prot ign off fs inst)).
+  { apply (renames_intro prot ign off fs inst (P, n)). apply Hinc. eapply protected_is_protected; eauto. }
+  split; [exact Hr|].
+  intro Hdist. unfold pre_merge.
+  apply (fold_rename_some _ inst _ Hr Hdist).
+  intros r Hin. apply renames_in in Hin. destruct Hin as [Hin _]. unfold r_old, r_new. simpl.
+  intro E. pose proof (Hfree _ Hin) as Hf. rewrite E in Hf. fold (new_loc fs P n) in Hf.
+  rewrite new_loc_is_cfg in Hf. discriminate.
+Qed.
+
+(* ---------------------------------------------------------------- keys stay distinct *)
+Lemma keys_del k m : NoDup (map fst m) -> NoDup (map fst (pm_del k m)).
+Proof.
+  unfold pm_del. induction m as [|[q n] m IH]; simpl; intro H; [constructor|].
+  inversion H as [|? ? Hni Hnd]; subst.
+  destruct (negb (str_eqb k q)); simpl; auto.
+  constructor; auto. intro Hin. apply Hni.
+  apply in_map_iff in Hin. destruct Hin as [e [He Hin]]. apply filter_In in Hin.
+  apply in_map_iff. exists e. tauto.
+Qed.
+Lemma keys_set_in x k n m : In x (map fst (pm_set k n m)) -> x = k \/ In x (map fst m).
+Proof.
+  induction m as [|[q n'] m IH]; simpl.
+  - intros [H|[]]; auto.
+  - destruct (str_eqb k q) eqn:E; simpl.
+    + apply str_eqb_eq in E. subst. intros [H|H]; auto.
+    + intros [H|H]; auto. destruct (IH H); auto.
+Qed.
+Lemma keys_set k n m : NoDup (map fst m) -> NoDup (map fst (pm_set k n m)).
+Proof.
+  induction m as [|[q n'] m IH]; simpl; intro H.
+  - constructor; [intros []|constructor].
+  - inversion H as [|? ? Hni Hnd]; subst.
+    destruct (str_eqb k q) eqn:E; simpl.
+    + apply str_eqb_eq in E. subst. constructor; auto.
+    + constructor; auto. intro Hin. apply keys_set_in in Hin. destruct Hin as [->|Hin]; auto.
+      rewrite str_eqb_refl in E. discriminate.
+Qed.
+Lemma keys_pre_merge prot ign off fs inst :
+  NoDup (map fst inst) -> NoDup (map fst (pre_merge prot ign off fs inst)).
+Proof.
+  unfold pre_merge. generalize (renames prot ign off fs inst). intro R. revert inst.
+  induction R as [|r R IH]; simpl; intros cs H; auto.
+  apply IH. unfold apply_rename. apply keys_set, keys_del, H.
+Qed.
+Lemma merge_get_some fs cs k n :
+  NoDup (map fst cs) -> pm_get k cs = Some n -> n <> Dir -> pm_get k (merge_fs fs cs) = Some n.
+Proof.
+  unfold merge_fs. revert fs. induction cs as [|[q m] cs IH]; simpl; intros fs Hnd Hg Hn; [discriminate|].
+  inversion Hnd as [|? ? Hni Hnd']; subst.
+  destruct (str_eqb k q) eqn:E.
+  - apply str_eqb_eq in E. subst q. inversion Hg; subst m.
+    destruct n as [dd|tt|]; [| |congruence].
+    + change (pm_get k (merge_fs (pm_set k (File dd) fs) cs) = Some (File dd)).
+      rewrite merge_get by exact Hni. apply pm_get_set_same.
+    + change (pm_get k (merge_fs (pm_set k (Sym tt) fs) cs) = Some (Sym tt)).
+      rewrite merge_get by exact Hni. apply pm_get_set_same.
+  - apply IH; auto.
+Qed.
+
+(* ---------------------------------------------------------------- the restore fold *)
+Lemma pm_get_del_none k q m : pm_get k m = None -> pm_get k (pm_del q m) = None.
+Proof.
+  intro H. destruct (list_eq_dec N.eq_dec k q) as [->|Hd].
+  - apply pm_get_del_same.
+  - rewrite pm_get_del_other; auto.
+Qed.
+Lemma restore_none cs r k : pm_get k cs = None -> r_old r <> k -> pm_get k (apply_restore cs r) = None.
+Proof.
+  intros H Ho. unfold apply_restore. destruct (pm_has (fst (fst r)) cs); auto.
+  rewrite pm_get_set_other by (intro E; apply Ho; unfold r_old; auto).
+  apply pm_get_del_none, H.
+Qed.
+Lemma fold_restore_none R cs k : pm_get k cs = None -> (forall r, In r R -> r_old r <> k) ->
+  pm_get k (fold_left apply_restore R cs) = None.
+Proof.
+  revert cs. induction R as [|r R IH]; simpl; intros cs H Ho; auto.
+  apply IH; [|intros; apply Ho; auto]. apply restore_none; auto.
+Qed.
+Lemma restore_other cs r k : r_new r <> k -> r_old r <> k -> pm_get k (apply_restore cs r) = pm_get k cs.
+Proof.
+  intros H1 H2. unfold apply_restore. destruct (pm_has (fst (fst r)) cs); auto.
+  rewrite pm_get_set_other by (intro E; apply H2; unfold r_old; auto).
+  apply pm_get_del_other. intro E; apply H1; unfold r_new; auto.
+Qed.
+Lemma fold_restore_other R cs k : (forall r, In r R -> r_new r <> k /\ r_old r <> k) ->
+  pm_get k (fold_left apply_restore R cs) = pm_get k cs.
+Proof.
+  revert cs. induction R as [|r R IH]; simpl; intros cs H; auto.
+  rewrite IH by (intros; apply H; auto). apply restore_other; apply H; auto.
+Qed.
+(* after the restore the ._cfg name is gone ... *)
+Lemma fold_restore_new_gone R cs r0 :
+  In r0 R -> (forall r, In r R -> r_old r <> r_new r0) ->
+  pm_get (r_new r0) (fold_left apply_restore R cs) = None.
+Proof.
+  revert cs. induction R as [|r R IH]; simpl; intros cs Hin Ho; [contradiction|].
+  destruct Hin as [->|Hin].
+  - apply fold_restore_none; [|intros; apply Ho; auto].
+    unfold apply_restore. fold (r_new r0). unfold pm_has.
+    destruct (pm_get (r_new r0) cs) eqn:E; auto.
+    rewrite pm_get_set_other by (intro E'; apply (Ho r0); auto). apply pm_get_del_same.
+  - apply IH; auto.
+Qed.
+(* ... and the real name is back, when the ._cfg entry was there and no other rename touches either name *)
+Lemma fold_restore_old_back R cs r0 v :
+  In r0 R -> NoDup (map r_new R) ->
+  pm_get (r_new r0) cs = Some v ->
+  (forall r, In r R -> r_old r <> r_new r0 /\ r_new r <> r_old r0) ->
+  (forall r, In r R -> r_old r = r_old r0 -> r = r0) ->
+  pm_get (r_old r0) (fold_left apply_restore R cs) = Some (snd (snd r0)).
+Proof.
+  revert cs. induction R as [|r R IH]; simpl; intros cs Hin Hnd Hv Hx Hu; [contradiction|].
+  inversion Hnd as [|? ? Hni Hnd']; subst.
+  destruct Hin as [->|Hin].
+  - rewrite fold_restore_other.
+    + unfold apply_restore. fold (r_new r0). unfold pm_has. rewrite Hv. apply pm_get_set_same.
+    + intros r Hr. split; [apply Hx; auto|].
+      intro E. apply Hni. pose proof (Hu r (or_intror Hr) E) as Heq. subst r. apply in_map. exact Hr.
+  - apply IH; auto.
+    rewrite restore_other; auto.
+    + intro E. apply Hni. rewrite E. apply in_map. exact Hin.
+    + apply Hx. auto.
+Qed.
+
+Lemma nodup_keys_unique (m : pmap) k a b : NoDup (map fst m) -> In (k, a) m -> In (k, b) m -> a = b.
+Proof.
+  induction m as [|[q n] m IH]; simpl; intros Hnd Ha Hb; [contradiction|].
+  inversion Hnd as [|? ? Hni Hnd']; subst.
+  destruct Ha as [Ha|Ha], Hb as [Hb|Hb].
+  - congruence.
+  - inversion Ha; subst. exfalso. apply Hni. apply in_map_iff. exists (k, b). auto.
+  - inversion Hb; subst. exfalso. apply Hni. apply in_map_iff. exists (k, a). auto.
+  - eauto.
+Qed.
+
+Theorem recorded_keeps_real_name_proof :
+  forall (prot ign : str -> bool) (off : str) (fs inst : pmap) (P d : str) (n : node),
+    pkg_ok inst ->
+    newlocs_distinct prot ign off fs inst ->
+    protected_file prot ign off fs P d ->
+    incoming_differs inst P d n ->
+    let recorded := post_merge prot ign off fs inst (pre_merge prot ign off fs inst) in
+    pm_get P recorded = Some n /\
+    pm_get (pjoin (dirname P) (cfg_name (cfg_count fs P n) (basename P))) recorded = None.
+Proof.
+  intros prot ign off fs inst P d n [Hnd Hfree] Hdist Hprot Hinc. simpl.
+  set (r0 := ((new_loc fs P n, n), (P, n)) : rn).
+  assert (Hr : In r0 (renames prot ign off fs inst)).
+  { apply (renames_intro prot ign off fs inst (P, n)). apply Hinc. eapply protected_is_protected; eauto. }
+  assert (Hold : forall r, In r (renames prot ign off fs inst) -> r_old r <> r_new r0).
+  { intros r Hin. apply renames_in in Hin. destruct Hin as [Hin _]. unfold r_old, r_new, r0. simpl.
+    intro E. pose proof (Hfree _ Hin) as Hf. rewrite E in Hf. rewrite new_loc_is_cfg in Hf. discriminate. }
+  split.
+  - unfold post_merge.
+    apply (fold_restore_old_back (renames prot ign off fs inst) _ r0 n Hr Hdist).
+    + unfold pre_merge. apply (fold_rename_some _ inst r0 Hr Hdist Hold).
+    + intros r Hin. split; [apply Hold; auto|].
+      apply renames_in in Hin. destruct Hin as [_ [_ Hf]]. unfold r_new, r_old, r0. rewrite Hf. simpl.
+      apply cfg_free_neq_new. destruct Hinc as [Hi _]. apply (Hfree _ Hi).
+    + intros r Hin Ho. pose proof (renames_in _ _ _ _ _ _ Hin) as [Hi [_ Hf]].
+      destruct r as [rn' [ol on]]. unfold r_old, r0 in Ho. simpl in *. subst ol.
+      assert (on = n) by (eapply nodup_keys_unique; [exact Hnd|exact Hi|apply Hinc]). subst on.
+      subst rn'. reflexivity.
+  - unfold post_merge. apply (fold_restore_new_gone _ _ r0 Hr Hold).
+Qed.
+
+Theorem incoming_content_beside_proof :
+  forall (prot ign : str -> bool) (off : str) (fs inst : pmap) (P d : str) (n : node),
+    pkg_ok inst ->
+    newlocs_distinct prot ign off fs inst ->
+    protected_file prot ign off fs P d ->
+    incoming_differs inst P d n ->
+    n <> Dir ->
+    pm_get (pjoin (dirname P) (cfg_name (cfg_count fs P n) (basename P)))
+           (merge_fs fs (pre_merge prot ign off fs inst)) = Some n.
+Proof.
+  intros prot ign off fs inst P d n Hok Hdist Hprot Hinc Hn.
+  apply merge_get_some; auto.
+  - apply keys_pre_merge. apply Hok.
+  - destruct (written_beside_proof prot ign off fs inst P d n Hok Hprot Hinc) as [_ [_ H]]. apply H, Hdist.
+Qed.
+
+
+(* ---------------------------------------------------------------- the same, about [run] (what the
+   correspondence compares with the implementation) *)
+Definition inst_of (i : input) : pmap := with_off (i_off i) (i_new i).
+Definition protI_of (i : input) := protect_filter (i_envd i) (i_xp i) (i_xm i).
+Definition protU_of (i : input) := protect_filter (i_envd i) [] [].
+Definition ign_of (i : input) (fs : pmap) := ignore_filter (i_envd i) [] (i_off i) fs.
+
+Theorem run_install_never_overwrites_proof :
+  forall (i : input) (P d : str) (n : node),
+    i_mode i = 0%N ->
+    pkg_ok (inst_of i) ->
+    protected_file (protI_of i) (ign_of i (i_fs i)) (i_off i) (i_fs i) P d ->
+    incoming_differs (inst_of i) P d n ->
+    pm_get P (o_fs (run i)) = Some (File d).
+Proof.
+  intros i P d n Hm Hok Hp Hd. unfold run. rewrite Hm. cbn [N.eqb negb andb].
+  match goal with |- context [if ?b then _ else _] => destruct b end; cbn [o_fs].
+  - apply Hp.
+  - cbn [live_of flat_map uninstall_set filter unmerge_fs fold_left].
+    apply (never_overwritten_proof _ _ _ _ _ P d n Hok Hp Hd).
+Qed.
+
+Theorem run_uninstall_keeps_modified_proof :
+  forall (i : input) (P d : str),
+    i_mode i = 2%N ->
+    protected_file (protU_of i) (ign_of i (i_fs i)) (i_off i) (i_fs i) P d ->
+    differs_from_recorded (with_off (i_off i) (i_old i)) P d ->
+    pm_get P (o_fs (run i)) = Some (File d).
+Proof.
+  intros i P d Hm Hp Hd. unfold run. rewrite Hm. cbn [N.eqb negb andb]. cbn [o_fs].
+  change (pre_merge (protect_filter (i_envd i) (i_xp i) (i_xm i)) (ignore_filter (i_envd i) [] (i_off i) (i_fs i))
+            (i_off i) (i_fs i) []) with (@nil (str * node)).
+  cbn [merge_fs fold_left].
+  change (post_merge _ _ _ _ [] []) with (@nil (str * node)).
+  apply (uninstall_keeps_modified_proof _ _ _ _ _ _ P d Hp Hd).
+Qed.
+
+Lemma uninstall_set_excludes_inst prot ign off fs recorded inst P :
+  pm_has P inst = true -> ~ In P (map fst (uninstall_set prot ign off fs recorded inst)).
+Proof.
+  intros Hh Hin. apply in_map_iff in Hin. destruct Hin as [[k n] [Hk Hin]]. simpl in Hk. subst k.
+  unfold uninstall_set in Hin. apply filter_In in Hin. destruct Hin as [Hin _].
+  apply filter_In in Hin. destruct Hin as [_ Hf]. simpl in Hf. rewrite Hh in Hf. discriminate.
+Qed.
+
+(* replace: neither half of the engine run touches a protected file that differs from the incoming one *)
+Theorem run_replace_never_overwrites_proof :
+  forall (i : input) (P d : str) (n : node),
+    i_mode i = 1%N ->
+    pkg_ok (inst_of i) ->
+    newlocs_distinct (protI_of i) (ign_of i (i_fs i)) (i_off i) (i_fs i) (inst_of i) ->
+    protected_file (protI_of i) (ign_of i (i_fs i)) (i_off i) (i_fs i) P d ->
+    incoming_differs (inst_of i) P d n ->
+    pm_get P (o_fs (run i)) = Some (File d).
+Proof.
+  intros i P d n Hm Hok Hdist Hp Hd. unfold run. rewrite Hm. cbn [N.eqb negb andb].
+  match goal with |- context [if ?b then _ else _] => destruct b end; cbn [o_fs].
+  - apply Hp.
+  - rewrite unmerge_get.
+    + apply (never_overwritten_proof _ _ _ _ _ P d n Hok Hp Hd).
+    + apply uninstall_set_excludes_inst.
+      destruct (recorded_keeps_real_name_proof _ _ _ _ _ P d n Hok Hdist Hp Hd) as [H _].
+      match goal with |- pm_has P ?X = true =>
+        assert (E : pm_get P X = Some n) by exact H; unfold pm_has; rewrite E; reflexivity end.
+Qed.
+
+(* replace: the unmerge half keeps a protected file (as the tree is after the merge half) that differs
+   from what the old package recorded *)
+Theorem run_replace_keeps_modified_proof :
+  forall (i : input) (P d : str),
+    i_mode i = 1%N ->
+    o_blocked (run i) = false ->
+    let fs1 := merge_fs (i_fs i) (pre_merge (protI_of i) (ign_of i (i_fs i)) (i_off i) (i_fs i) (inst_of i)) in
+    protected_file (protU_of i) (ign_of i fs1) (i_off i) fs1 P d ->
+    differs_from_recorded (with_off (i_off i) (i_old i)) P d ->
+    pm_get P (o_fs (run i)) = Some (File d).
+Proof.
+  intros i P d Hm Hb fs1 Hp Hd. revert Hb. unfold run. rewrite Hm. cbn [N.eqb negb andb].
+  match goal with |- context [if ?b then _ else _] => destruct b end; cbn [o_fs o_blocked]; [discriminate|].
+  intros _. apply (uninstall_keeps_modified_proof _ _ _ _ _ _ P d Hp Hd).
+Qed.
+
+(* ---------------------------------------------------------------- NNNN formats back to itself *)
+Definition dig10 : list N := [48; 49; 50; 51; 52; 53; 54; 55; 56; 57]%N.
+Lemma is_digit_in a : is_digit a = true -> In a dig10.
+Proof.
+  unfold is_digit. intro H. apply andb_prop in H. destruct H as [H1 H2].
+  apply N.leb_le in H1, H2.
+  assert (H : exists k, (k < 10)%nat /\ a = N.of_nat (48 + k)).
+  { exists (N.to_nat a - 48)%nat. split; lia. }
+  destruct H as [k [Hk ->]].
+  do 10 (destruct k as [|k]; [simpl; tauto|]). lia.
+Qed.
+Definition quad_ok (a b c d : N) : bool :=
+  match fmt04 (((digit_val a * 10 + digit_val b) * 10 + digit_val c) * 10 + digit_val d) with
+  | [a'; b'; c'; d'] => N.eqb a a' && N.eqb b b' && N.eqb c c' && N.eqb d d'
+  | _ => false
+  end.
+Lemma all_quads_ok :
+  forallb (fun a => forallb (fun b => forallb (fun c => forallb (fun d => quad_ok a b c d) dig10) dig10) dig10) dig10 = true.
+Proof. vm_compute. reflexivity. Qed.
+Lemma quad_roundtrip a b c d :
+  is_digit a = true -> is_digit b = true -> is_digit c = true -> is_digit d = true ->
+  fmt04 (((digit_val a * 10 + digit_val b) * 10 + digit_val c) * 10 + digit_val d) = [a; b; c; d].
+Proof.
+  intros Ha Hb Hc Hd.
+  pose proof all_quads_ok as H. rewrite forallb_forall in H.
+  specialize (H a (is_digit_in a Ha)). rewrite forallb_forall in H.
+  specialize (H b (is_digit_in b Hb)). rewrite forallb_forall in H.
+  specialize (H c (is_digit_in c Hc)). rewrite forallb_forall in H.
+  specialize (H d (is_digit_in d Hd)). unfold quad_ok in H.
+  destruct (fmt04 _) as [|a' [|b' [|c' [|d' [|? ?]]]]]; try discriminate.
+  repeat (apply andb_prop in H; destruct H as [H ?]).
+  repeat match goal with E : N.eqb _ _ = true |- _ => apply N.eqb_eq in E end. subst. reflexivity.
+Qed.
+Lemma starts_with_app_inv pre s : starts_with pre s = true -> exists r, s = pre ++ r.
+Proof.
+  revert s. induction pre as [|a pre IH]; intros s H; simpl in *.
+  - exists s. reflexivity.
+  - destruct s as [|b s]; [discriminate|]. apply andb_prop in H. destruct H as [H1 H2].
+    apply N.eqb_eq in H1. subst. destruct (IH s H2) as [r ->]. exists r. reflexivity.
+Qed.
+(* a pending-update name the scan accepts is exactly the name the trigger would generate for its number *)
+Theorem pending_name_roundtrip_proof :
+  forall (x fname : str) (c : Z),
+    starts_with cfgp x = true -> parse_cfg x = Some (c, fname) -> x = cfg_name c fname.
+Proof.
+  intros x fname c Hs Hp. destruct (starts_with_app_inv _ _ Hs) as [r ->].
+  unfold parse_cfg in Hp. change (skipn 5 (cfgp ++ r)) with r in Hp.
+  destruct r as [|a [|b [|c' [|d [|u name]]]]]; try discriminate.
+  destruct (is_digit a) eqn:Ea; [|discriminate]. destruct (is_digit b) eqn:Eb; [|discriminate].
+  destruct (is_digit c') eqn:Ec; [|discriminate]. destruct (is_digit d) eqn:Ed; [|discriminate].
+  destruct (N.eqb u US) eqn:Eu; [|discriminate]. cbn [andb] in Hp. inversion Hp; subst.
+  apply N.eqb_eq in Eu. subst u. unfold cfg_name. rewrite quad_roundtrip by assumption. reflexivity.
+Qed.
+
+Lemma insert_str_in x y l : In x (insert_str y l) -> x = y \/ In x l.
+Proof.
+  induction l as [|z l IH]; simpl.
+  - intros [H|[]]; auto.
+  - destruct (str_ltb z y); simpl; intros [H|H]; auto. destruct (IH H); auto.
+Qed.
+Lemma sort_str_in x l : In x (sort_str l) -> In x l.
+Proof.
+  unfold sort_str. induction l as [|y l IH]; simpl; auto.
+  intro H. apply insert_str_in in H. destruct H; auto.
+Qed.
+Lemma cfg_listing_cfg fs d x : In x (cfg_listing fs d) -> starts_with cfgp x = true.
+Proof.
+  unfold cfg_listing. intro H. apply sort_str_in in H. apply in_flat_map in H.
+  destruct H as [[loc nd] [_ H]]. cbn [fst snd] in H. destruct nd as [dt|tg|]; [|destruct H|destruct H].
+  destruct (str_eqb (dirname loc) d); cbn [andb] in H; [|destruct H].
+  destruct (starts_with cfgp (basename loc)) eqn:E; [|destruct H].
+  destruct H as [<-|[]]. exact E.
+Qed.
+(* so "reusing the number" means: the destination IS the identical pending file *)
+Theorem reuse_targets_identical_file_proof :
+  forall (fs : pmap) (dir fname : str) (c : Z) (x : str) (content : node),
+    pending_update fs dir fname c x content ->
+    pjoin dir (cfg_name c fname) = pjoin dir x /\ content = live_at fs (pjoin dir (cfg_name c fname)).
+Proof.
+  intros fs dir fname c x content [H1 [H2 H3]].
+  rewrite <- (pending_name_roundtrip_proof x fname c (cfg_listing_cfg _ _ _ H1) H2). auto.
+Qed.
+
+(* ---------------------------------------------------------------- the hypotheses are satisfiable *)
+Definition S (b : bstr) : str := s2l b.
+Definition ex_fs : pmap :=
+  [(S "/etc/foo"%bs, File (S "L"%bs)); (S "/etc/._cfg0003_foo"%bs, File (S "N"%bs));
+   (S "/etc/._cfg0001_foo"%bs, File (S "X"%bs)); (S "/opt/c/bar"%bs, File (S "M"%bs));
+   (S "/etc/.keep"%bs, File (S "K"%bs))].
+Definition ex_inst : pmap :=
+  [(S "/etc"%bs, Dir); (S "/etc/foo"%bs, File (S "N"%bs)); (S "/etc/.keep"%bs, File (S "K2"%bs))].
+Definition ex_prot := protect_filter [] [] [].
+Definition ex_ign := ignore_filter [] [] [SL] ex_fs.
+
+Example ex_protected : protected_file ex_prot ex_ign [SL] ex_fs (S "/etc/foo"%bs) (S "L"%bs).
+Proof. repeat split; vm_compute; reflexivity. Qed.
+Example ex_differs : incoming_differs ex_inst (S "/etc/foo"%bs) (S "L"%bs) (File (S "N"%bs)).
+Proof. split; [vm_compute; tauto|reflexivity]. Qed.
+Example ex_pkg_ok : pkg_ok ex_inst.
+Proof.
+  split.
+  - vm_compute. repeat constructor; simpl; intuition discriminate.
+  - intros e He. vm_compute in He. intuition (subst; reflexivity).
+Qed.
+Example ex_distinct : newlocs_distinct ex_prot ex_ign [SL] ex_fs ex_inst.
+Proof. vm_compute. repeat constructor; simpl; intuition discriminate. Qed.
+(* the identical pending update 0003 is reused (0001 differs); without it the number would be 4 *)
+Example ex_reuse : new_loc ex_fs (S "/etc/foo"%bs) (File (S "N"%bs)) = S "/etc/._cfg0003_foo"%bs.
+Proof. vm_compute. reflexivity. Qed.
+Example ex_exceed : new_loc ex_fs (S "/etc/foo"%bs) (File (S "Q"%bs)) = S "/etc/._cfg0004_foo"%bs.
+Proof. vm_compute. reflexivity. Qed.
+(* .keep is under /etc but matched by COLLISION_IGNORE's built-in */.keep: not protected *)
+Example ex_keep_ignored : ex_ign (S "/etc/.keep"%bs) = true.
+Proof. vm_compute. reflexivity. Qed.
+Example ex_merge :
+  show_tree (merge_fs ex_fs (pre_merge ex_prot ex_ign [SL] ex_fs ex_inst))
+  = S "/etc/._cfg0001_foo;f;X|/etc/._cfg0003_foo;f;N|/etc/.keep;f;K2|/etc/foo;f;L|/opt/c/bar;f;M"%bs.
+Proof. vm_compute. reflexivity. Qed.
+Example ex_uninstall :
+  differs_from_recorded [(S "/etc/foo"%bs, File (S "R"%bs))] (S "/etc/foo"%bs) (S "L"%bs)
+  /\ show_tree (unmerge_fs ex_fs (uninstall_set ex_prot ex_ign [SL] ex_fs
+                  [(S "/etc/foo"%bs, File (S "R"%bs)); (S "/opt/c/bar"%bs, File (S "R2"%bs))] []))
+     = S "/etc/._cfg0001_foo;f;X|/etc/._cfg0003_foo;f;N|/etc/.keep;f;K|/etc/foo;f;L"%bs.
+Proof. split; [eexists; split; reflexivity|vm_compute; reflexivity]. Qed.
